@@ -74,5 +74,10 @@ CHECKS = {
         'JIT: call target = the registered address, (rdi,rsi,rdx,rcx,r8) = (r1..r5), RSP = 0 mod 16 at the call given the SysV entry condition - at top level, with two calls, and inside local functions of depth 1..3; same value as the interpreter. '
         'Cranelift: callee identity via the FuncRef map, argument order, result to r0. Unknown id => Err from jit_compile and cranelift_compile.',
    note=INTERP_NOTE + ' Trusted: SysV entry alignment, Cranelift ABI lowering. Compiled-code call sites are an enumerated family; arguments are symbolic.'),
+ 'C18': dict(level='model_checking', engine='mirsym+x86sym+clifsym', design_ref='DESIGN.md 5/C18',
+   technique='shape of the update extracted from the real artefacts (MIR fetch_add / lock-prefixed add bytes / CLIF atomic_rmw) + z3: functional effect for all addends, widths, alignments; bounded interleaving model generated from the shapes with symbolic schedules (integer encoding)',
+   text='Functional: M\' = M[a..a+w := old + trunc_w(src)], nothing else written, misaligned => interpreter Err with empty write log, same memory effect in JIT and Cranelift code. Shapes: one AtomicU32/U64::fetch_add after the alignment test; one F0-prefixed 01 /r on a memory operand of the right width; one atomic_rmw.i32/i64 add. '
+        'Interleavings: 2 (thorough 3) threads x 2 adds, every multiset of engines, schedule = symbolic position variables: final word = initial + sum of addends mod 2^w for every schedule; a twin model with a split update must lose an update.',
+   note='Trusted: atomicity of fetch_add, of the lock prefix and of Cranelift atomic_rmw; sequentially consistent interleaving of the extracted steps. Bounds: threads and adds as stated.'),
 }
 NOT_APPLICABLE = {}
